@@ -233,6 +233,22 @@ def generate(repo):
         rows.append('(%d, %s)' % (t.value, o))
     out.append('Definition convert_other_table : list (Z * option string) := [%s].' % '; '.join(rows))
     out.append('')
+    # 8. the (operation, site) pairs of the known findings recorded for C13 (findings.d/C13.json), for the theorem statement
+    import json
+    fpath = Path(__file__).resolve().parents[1] / 'findings.d' / 'C13.json'
+    rows = []
+    if fpath.exists():
+        for f in json.loads(fpath.read_text()):
+            sig = f.get('signature', {})
+            if f.get('status') != 'known' or f.get('property') != 'C13' or 'exc' not in sig or 'site' not in sig or 'op' not in sig:
+                continue
+            site = '%s:%s%s' % (sig['site'], sig['exc'], '(%s)' % sig['detail'] if sig.get('detail') else '')
+            if '"' in site or '"' in f['id']:
+                raise ValueError('quote in finding %r' % f['id'])
+            rows.append('("%s", "%s", "%s")' % (f['id'], sig['op'], site))
+    out.append('(* (finding id, operation, site) of every known finding of findings.d/C13.json whose signature names the exception *)')
+    out.append('Definition known_finding_sites : list (string * string * string) := [\n  %s\n].' % ';\n  '.join(rows))
+    out.append('')
     out.append('(* which unguarded uses the handlers still contain: each was probed with a canonical witness request against a')
     out.append('   scratch KmipEngine; true = the witness still answers GENERAL_FAILURE at the recorded site *)')
     out.append('Definition defect_present : list (string * bool) := [%s].' % ';\n  '.join(
